@@ -188,6 +188,14 @@ def _rewrite_block(stmts: list) -> list:
                     out.append(ast.copy_location(ast.Return(value=ast.fix_missing_locations(ast.copy_location(call, s))), s))
                     i += 2
                     continue
+                # S: first-match search   for T in IT: if c: return E   /   return D     ->   return next((E for T in IT if c), D)
+                if cond is not None and len(tail) == 1 and isinstance(tail[0], ast.Return) and tail[0].value is not None \
+                        and isinstance(nxt, ast.Return) and nxt.value is not None and not (_names_in(nxt.value) & tn):
+                    elt = _sub(tail[0].value, env)
+                    call = ast.Call(func=ast.Name(id="next", ctx=ast.Load()), args=[_gen(elt, s.target, s.iter, guards + [cond]), nxt.value], keywords=[])
+                    out.append(ast.copy_location(ast.Return(value=ast.fix_missing_locations(ast.copy_location(call, s))), s))
+                    i += 2
+                    continue
                 # F: flag search  (the value before the loop is whatever the name held: `v = V if any(..) else v`)
                 if cond is not None and tail and isinstance(tail[0], ast.Assign) and len(tail[0].targets) == 1 \
                         and isinstance(tail[0].targets[0], ast.Name):
